@@ -251,14 +251,16 @@ func (b *rNode) valid() bool {
 	}
 
 	// Check that the DPtr values are non-decreasing. The first DPtr value is
-	// implicitly zero.
+	// implicitly zero. Also check that 0xFD Codec Entries have an empty DRange:
+	// the (i-1)'th element's DRange is [prev, curr) and its TTag is the byte
+	// just before the i'th DPtr.
 	prev := int64(0)
 	for i := 1; i <= arity; i++ {
 		curr := u48LE(b[8*i:])
 		if curr < prev {
 			return false
 		} else if curr != prev {
-			if tTag := b[(8*i)+7]; tTag == 0xFD {
+			if tTag := b[(8*i)-1]; tTag == 0xFD {
 				return false
 			}
 		}
